@@ -3,6 +3,6 @@
 set -e
 cd "$(dirname "$0")"
 mkdir -p spec/classes evidence .build
-javac -cp /opt/veriftools/tla/tla2tools.jar -d spec/classes spec/IEEE.java
+javac -cp /opt/veriftools/tla/tla2tools.jar -d spec/classes spec/*.java
 /venv/bin/python -c "import sys; sys.path.insert(0,'/repo'); import sasmodels, numpy, scipy" 
 echo "setup ok"
